@@ -384,6 +384,25 @@ def run(rep: Report, tier: str):
                 rep.ok("C14.views", f.qualname, f"self.{cache} computed from the current object", f"{f.file}:{f.line}")
             else:
                 rep.bad("C14.views", f.qualname, "not-from-self", f"{f.qualname} does not compute self.{cache} from the current object", f.file, f.line)
+    # the verdict is recomputed from the current object: fresh context, no memo of earlier results
+    az = repo.cls("fickling.analysis.Analyzer")
+    an = az.method("analyze")
+    if an is None:
+        raise AnalysisError("Analyzer.analyze not found")
+    self_attrs = {n.attr for n in body_walk(an.node) if isinstance(n, ast.Attribute) and isinstance(n.value, ast.Name) and n.value.id == "self"}
+    rets = [n.value for n in body_walk(an.node) if isinstance(n, ast.Return)]
+    fresh_ctx = any(isinstance(n, ast.Assign) and isinstance(n.value, ast.Call) and dotted(n.value.func) == "AnalysisContext" for n in body_walk(an.node))
+    decorated = [dotted(d) or (dotted(d.func) if isinstance(d, ast.Call) else "") for d in an.node.decorator_list]
+    if fresh_ctx and self_attrs <= {"analyses"} and len(rets) == 1 and src(rets[0]) == "context.results" and not decorated:
+        rep.ok("C14.views", an.qualname, "verdict computed in a fresh AnalysisContext from the current object; no stored results consulted", f"{an.file}:{an.line}")
+    else:
+        rep.bad("C14.views", an.qualname, "verdict-cached", f"Analyzer.analyze may answer from state kept between calls (self attributes used: {sorted(self_attrs)}, returns {[src(r) for r in rets]}, decorators {decorated}): after an edit of the opcode list the safety verdict can be the pre-edit one", an.file, an.line)
+    cs = repo.func("fickling.analysis.check_safety")
+    calls = [n for n in body_walk(cs.node) if isinstance(n, ast.Call) and isinstance(n.func, ast.Attribute) and n.func.attr == "analyze"]
+    if len(calls) == 1 and not any(isinstance(n, ast.Attribute) and n.attr.startswith("_") and dotted(n.value) == "pickled" for n in body_walk(cs.node)):
+        rep.ok("C14.views", cs.qualname, "check_safety always runs the analyzer on the object it is given", f"{cs.file}:{cs.line}")
+    else:
+        rep.bad("C14.views", cs.qualname, "verdict-cached", "check_safety does not unconditionally analyse the object it is given", cs.file, cs.line)
     # serialisers iterate the live list (full concat discipline is C06.concat)
     for mname in ("dumps", "dump"):
         f = repo.find_method(base, mname)
